@@ -2,10 +2,18 @@
 """Writes /tmp/hunt/<ID>/PROMPT.txt: the brief for an independent reviewer sub-agent that looks for GENUINE violations of a
 property in the code as it is (property text only, nothing from /verif)."""
 import json, sys
+import os, glob
 ids=sys.argv[1:]
+ROUND2=os.environ.get('ROUND2','')
 props={json.loads(l)['id']:json.loads(l) for l in open('/verif/properties.jsonl')}
 for i in ids:
     p=props[i]; a=p['anchors']
+    known=''
+    if ROUND2:
+        try:
+            L=json.load(open(f'/verif/hunts/{i}/findings.json'))
+            known='\n\nALREADY KNOWN — an earlier review of this property reported the following; the ones that were judged genuine have since been repaired in this checkout. Do NOT report any of these again (nor the same mechanism in another guise); look at OTHER mechanisms, other code paths of the listed files, other boundary values and other interleavings:\n' + '\n'.join('  - '+x.get('title','')[:200] for x in L)
+        except Exception: pass
     txt=f"""You are working in a scratch git worktree of the Rust repository huggingface/xet-core at /tmp/hunt/{i} (a Rust client for Hugging Face Xet storage: content-defined chunking, Merkle hashing, xorb and shard binary formats, dedup index, local chunk cache). Work ONLY inside /tmp/hunt/{i}. Do NOT read or use anything under /verif, /root/agents, /tmp/mut*, /tmp/seed or other /tmp/hunt/* directories, and do not touch /repo. The sandbox has no network; build and test with `--offline`. Use your own cargo target directory (the default /tmp/hunt/{i}/target) and DELETE it (rm -rf /tmp/hunt/{i}/target) when you are completely done. Do NOT use `git stash` (it is shared between worktrees).
 
 A semantic property of this code base that users rely on:
@@ -18,7 +26,7 @@ A semantic property of this code base that users rely on:
 
 YOUR TASK: review the code AS IT IS and look for a GENUINE violation of this property: a concrete input, sequence of operations, configuration of size limits, interleaving or injected failure for which the current code does not do what the statement says. Do not change the source code. Be adversarial and specific: read the mechanisms listed above line by line, think about boundary values (exactly at / one past each limit, zero, empty, maximum), repeated or colliding values (repeated chunks, equal hashes, 64-bit prefix collisions), state left over from an earlier step (after a cut / flush / eviction / re-open / error), counters updated on one path and not on another, two steps that can interleave, errors that are dropped, and code paths the existing tests never reach. Many constants are overridable through HF_XET_<NAME> environment variables in debug builds (see utils/src/constant_declarations.rs), which lets small inputs reach the limit logic. Debug assertions count: a debug assertion that fires on a legitimate input is a defect too.
 
-For every candidate you find, PROVE it: write a new integration test file (e.g. /tmp/hunt/{i}/<crate>/tests/hunt_demo.rs) or a small example program that runs against the unmodified source and FAILS (wrong value, panic, lost error, ...) exactly because of the defect, deterministic if at all possible. A suspicion you could not reproduce is still worth one paragraph, clearly marked as unconfirmed. Only report things that violate THIS property as stated (not style issues, not other properties).
+For every candidate you find, PROVE it: write a new integration test file (e.g. /tmp/hunt/{i}/<crate>/tests/hunt_demo.rs) or a small example program that runs against the unmodified source and FAILS (wrong value, panic, lost error, ...) exactly because of the defect, deterministic if at all possible. A suspicion you could not reproduce is still worth one paragraph, clearly marked as unconfirmed. Only report things that violate THIS property as stated (not style issues, not other properties). Stay inside the property's quantifier: do not report misconfigurations that no feasible setting satisfies (e.g. a xorb byte limit below one chunk, a chunk target above the wire-format maximum), forged or adversarial on-disk names, hash collisions that need breaking BLAKE3, servers that violate the protocol, caller cancellation, or I/O errors, unless the property's text explicitly includes them.{known}
 
 Deliverables in /tmp/hunt/{i}/OUT/ :
    findings.json — a list; for each finding {{"title": "...", "confirmed": true/false, "where": "file:line", "what_fails": "<the concrete input / sequence / schedule>", "observed": "...", "expected": "...", "why_it_violates_the_property": "...", "suggested_minimal_fix": "...", "demo": "<file name under OUT/demo or null>", "command": "<exact command to run the demo>"}}; an empty list if you found nothing
